@@ -46,6 +46,10 @@ func runC06(p *Prog, r *Report) {
 	ruleFamilyDisjoint(p, r, le, "unicodedata", "lineBreaks", "", 43)
 	ruleFamilyDisjoint(p, r, le, "unicodedata", "graphemeBreaks", "graphemeBreakAll", 13)
 	ruleFamilyDisjoint(p, r, le, "unicodedata", "wordBreaks", "wordBreakAll", 14)
+	r.Explain = append(r.Explain, "R-TABONLY (shared with C20): the three class lookups the rules are applied to (LookupLineBreakClass, LookupGraphemeBreakClass, LookupWordBreakClass) return only entries of their table or the documented default, and decide through table membership only — no range test on the rune in front of the table.")
+	ruleTabOnly(p, r, tabOnlyCfg{pkg: "unicodedata", fn: "LookupLineBreakClass", table: []string{"lineBreaks"}, constants: []string{"BreakXX"}, noRuneCmp: true})
+	ruleTabOnly(p, r, tabOnlyCfg{pkg: "unicodedata", fn: "LookupGraphemeBreakClass", table: []string{"graphemeBreaks"}, zero: true, noRuneCmp: true})
+	ruleTabOnly(p, r, tabOnlyCfg{pkg: "unicodedata", fn: "LookupWordBreakClass", table: []string{"wordBreaks"}, zero: true, noRuneCmp: true})
 	r.Assumptions = append(r.Assumptions, "unicode.Is is trusted", "that the rule functions implement UAX #14 / UAX #29 is NOT decided: the standard's rule tables are not in the repository and extracting a pair table from ~600 lines of comparisons would be symbolic execution")
 	r.NotDecided = append(r.NotDecided, "agreement of boundaries with UAX #29 / UAX #14", "segments are consecutive, non-empty and concatenate to the input")
 }
@@ -126,6 +130,8 @@ func runC07(p *Prog, r *Report) {
 	r.Explain = append(r.Explain, "R-BISECT: every sort.Search whose predicate indexes a package-level table literal requires that table to be sorted by the compared key (evaluated from the literal).")
 	ruleBisect(p, r, le)
 	ruleSortedList(p, r, le, "shaping", "pairedDelims", 60)
+	r.Explain = append(r.Explain, "R-TAB/parity: pairedDelims is consulted by position (even: opening, odd: closing, counterpart at index-1): no opening punctuation (Ps) at an odd index, no closing one (Pe) at an even index, an even number of entries — one unpaired character shifts every following pair (found on the pinned tree: the CJK brackets were handled with open and close exchanged).")
+	ruleDelimParity(p, r, le, "shaping", "pairedDelims")
 	ruleSortedRanges(p, r, le, "language", "ScriptRanges", "Start", "End", 900)
 	r.Explain = append(r.Explain, "R-BIDI/par: bidi.Paragraph.SetString stops at the first paragraph separator (class B) and returns the bytes consumed; every caller in the module uses that count, or cuts the text at the separators itself (it, or its caller, compares the bidi class of a rune with bidi.B): the text after a newline gets its own levels instead of inheriting the direction of the run before.")
 	ruleBidiParagraphs(p, r, 1)
@@ -142,6 +148,10 @@ func controlsFrame(cp *Prog, r *Report) {
 		ruleSortedList(cp, cr, le, "tab", "listGood", 2)
 		ruleSortedList(cp, cr, le, "tab", "listBad", 2)
 	}, "tab.listBad")
+	expectControl(r, "R-TAB/parity", func(cr *Report) {
+		ruleDelimParity(cp, cr, le, "tab", "delimsGood")
+		ruleDelimParity(cp, cr, le, "tab", "delimsBad")
+	}, "tab.delimsBad")
 }
 
 // ruleBidiParagraphs — R-BIDI/par: bidi.Paragraph.SetString / SetBytes stop at the first paragraph separator (class B) and
